@@ -24,8 +24,10 @@ MAPS = {
     'C01': r'^(rec|shown)\.(arg\.(kind|value)|nargs|name|dir|target\.(id|type))$',
     # labels unambiguous and usable as matchers
     'C14': r'^(shown|stopped)\.(target|arg\.obj|dest)\.gen$|^notice(\.closed)?$|^conns\.name$|^counts$|^none\.n$|^shape\.|^shown\.(name|dir|nargs|target\.id|conn)$',
-    # breakpoints
-    'C10': r'^(shape\.(want|missing|extra)\.stopped|stopped\.)',
+    # breakpoints: halting, notices, what GDB is told to do
+    'C10': r'^halt$|^exec$|^shape\.(want\.stopped|missing\.stopped|extra\.stopped|want\.\w+\.got\.stopped)|^stopped\.(name|dir|nargs|target\.id)$|^break(\.len)?$|^selected$',
+    # GDB mode follows libwayland's connections
+    'C15': r'^raised$|^notice(\.closed)?$|^conns\.|^shown\.conn$|^shape\.(want|missing|extra)\.(new|closed|warning)|^shape\.want\.\w+\.got\.(new|closed|warning)|^(rec|shown)\.(target|arg\.obj)\.gen$',
 }
 
 
